@@ -494,6 +494,47 @@ def run(facts, rep):
     else:
         rep.violation("R-LOCK(try)", "self-test", "the try-acquisition matcher no longer recognises its positive example")
     rep.floor("R-LOCK(try)", "non-blocking acquisitions", n_try, 0)
+    # ---- (split): one cache entry published in two critical sections
+    rep.rule("R-LOCK(split)", "a &self function does not mutate the same lock-protected value under two separate write acquisitions "
+             "(placeholder now, real value later): between the two critical sections other threads observe the intermediate value")
+    n_split = 0
+    for p in sorted({ml.owner(q) for q in ml.sites}):
+        body = facts.hir.get(p)
+        it = facts.items.get(p)
+        if body is None or it is None:
+            continue
+        self_ty = it["params"][0].get("ty", "") if it["params"] else ""
+        if self_ty.startswith("&mut "):
+            continue
+        guards = {}          # guard lid -> field name
+        for x in walk(body):
+            if x.get("k") == "Let" and x["pat"].get("k") == "PBind" and "init" in x:
+                for y in walk(x["init"]):
+                    f = callee(y)
+                    if f and f["def"] in ACQ and ACQ[f["def"]] == "w" and "::try_" not in f["def"]:
+                        guards[x["pat"]["lid"]] = strip(y["recv"]).get("name", "?")
+        by_field = {}
+        for x in walk(body):
+            k = x.get("k")
+            rl = None
+            if k in ("Assign", "AssignOp"):
+                rl = root_local(x["lhs"])
+            elif k == "MCall" and x.get("name") in GROWERS | {"resize", "insert", "copy_from_slice", "fill", "clear", "truncate"}:
+                rl = root_local(x["recv"])
+            if rl and rl[0] in guards:
+                by_field.setdefault(guards[rl[0]], {}).setdefault(rl[0], []).append(x)
+        for fld, per_guard in by_field.items():
+            n_split += 1
+            key = "%s/%s/split" % (p, fld)
+            if len(per_guard) >= 2:
+                first = sorted(per_guard.items())[0][1][0]
+                rep.violation("R-LOCK(split)", key, "`%s` is mutated under %d separate write acquisitions in this &self function: the value "
+                              "stored in the first critical section (a placeholder) is visible to every other thread until the second "
+                              "one replaces it — a thread that tests the entry in between uses the placeholder as the real value" %
+                              (fld, len(per_guard)), facts.loc(p, first))
+            else:
+                rep.ok("R-LOCK(split)", key, "`%s` is mutated under a single write acquisition" % fld, facts.loc(p), nontrivial=False)
+    rep.floor("R-LOCK(split)", "(function, lock) pairs with mutations through write guards", n_split, 2)
     im = interior_mutable_fields(facts)
     rep.extra["interior_mutable_fields"] = ["%s.%s: %s" % x for x in im]
     return ml
